@@ -39,7 +39,7 @@ use super::*;
 //@include prelude/iter_ext.rs
 //@include prelude/scanimp_iter.rs
 //@include prelude/cycles_std.rs
-//@include prelude/cycles_spec_v3.rs
+//@include prelude/cycles_spec.rs
 //@include prelude/cycles_complete.rs
 //@include prelude/cycles_roots.rs
 } // mod pre
